@@ -108,6 +108,17 @@ def run(tier, seed):
                 p["srv"]["capv"] = capv
                 p["srv"]["same_share"] = same
                 plans.append(p); k += 1
+        # the Client Info PDU at every length around the PER boundary 0x7f / 0x80 / 0x81 (both variants of the PDU)
+        for ext in (False, True):
+            for n in range(0, 72, 1 if tier == "thorough" or ext else 2):
+                p = json.loads(json.dumps(base))
+                p["id"] = "ladder-%d-%d" % (ext, n)
+                p["cfg"].update({"nla": False, "admin": False, "blank": False, "hash": False, "check": False, "domain": [100], "user": [97 + (i % 26) for i in range(n)], "name": [118, 104]})
+                p["srv"]["reply"]["sel"] = [1, 0, 0, 0]
+                p["srv"]["account"] = {"domain": p["cfg"]["domain"], "user": p["cfg"]["user"], "password": p["cfg"]["password"]}
+                p["srv"]["activations"] = 1
+                p["srv"]["blocks"] = {"version": [1 if ext else 4, 0, 8, 0], "core_opt": 2, "with_security": True, "order": ["core", "sec", "net"]}
+                plans.append(p)
         st = json.loads(json.dumps(base))
         st["id"] = "selftest"
         st["cfg"].update({"nla": False, "admin": False, "name": [97], "check": False})
